@@ -94,18 +94,37 @@ Proof.
   destruct l as [|x l]; [destruct n; reflexivity|]. cbn. apply IH.
 Qed.
 
+(* a push taken back leaves the queue object as it was: entries and next number *)
+Lemma drop_push st s d : R st s -> q_drop_last (q_push st d) = st.
+Proof.
+  intros H. pose proof (push_id_R _ _ H) as Hid. pose proof (R_last _ _ H) as Hl.
+  unfold q_drop_last, q_push. cbn [fst snd]. rewrite last_id_app, Z.eqb_refl, removelast_last.
+  destruct st as [q l]. cbn [fst snd] in *. f_equal. lia.
+Qed.
+
+Lemma refused_id st s k d : R st s -> fst (a_refused st k d) = st.
+Proof. intros H. destruct k; cbn [a_refused fst]; [apply (drop_push _ _ _ H)|reflexivity|reflexivity]. Qed.
+
 (* one step of the model is one step of the specification *)
 Lemma step_refines st s o : R st s ->
   let '(st', w) := a_step st o in
   let '(s', w') := sp_step s o in
   w = w' /\ R st' s'.
 Proof.
-  intros H. destruct o as [k d|d|h]; cbn [a_step sp_step].
+  intros H. destruct o as [k d|k d|k d|h]; cbn [a_step sp_step].
   - destruct k; cbn [a_send].
     + split; [reflexivity|apply push_R; exact H].
     + split; [reflexivity|exact H].
     + split; [reflexivity|exact H].
-  - split; [reflexivity|apply push_R; exact H].
+  - destruct k; cbn [a_send].
+    + split; [reflexivity|apply push_R; exact H].
+    + split; [reflexivity|exact H].
+    + split; [reflexivity|exact H].
+  - (* refused write *)
+    pose proof (refused_id _ _ k d H) as Hst.
+    assert (Hw : snd (a_refused st k d) = []) by (destruct k; reflexivity).
+    destruct (a_refused st k d) as [st' w]. cbn [fst snd] in Hst, Hw. subst st' w.
+    split; [reflexivity|exact H].
   - (* ack *)
     pose proof (held_length _ _ H) as Hlen. pose proof (R_le _ _ H) as Hle.
     unfold a_ack. destruct (fst st) as [|[first t] q] eqn:E.
@@ -162,9 +181,30 @@ Proof.
   destruct Hs as [-> HR]. cbn [map fst snd]. rewrite (R_held _ _ HR), (IH _ _ HR). reflexivity.
 Qed.
 
-(* acks are never held *)
-Lemma acks_not_held st k d : k <> KStanza -> fst (a_send st k d) = st.
-Proof. destruct k; [contradiction| |]; reflexivity. Qed.
+(* acks are never held, through Send (value or pointer) or SendRaw *)
+Lemma acks_not_held st k d : k <> KStanza ->
+  fst (a_step st (ASend k d)) = st /\ fst (a_step st (ASendRaw k d)) = st.
+Proof. destruct k; [contradiction| |]; split; reflexivity. Qed.
+
+(* the state after a history *)
+Definition a_exec (st : qstate) (ops : list aop) : qstate := fold_left (fun s o => fst (a_step s o)) ops st.
+Definition sp_exec (s : spec) (ops : list aop) : spec := fold_left (fun s o => fst (sp_step s o)) ops s.
+
+Lemma exec_R ops : forall st s, R st s -> R (a_exec st ops) (sp_exec s ops).
+Proof.
+  induction ops as [|o ops IH]; intros st s H; [exact H|].
+  cbn [a_exec sp_exec fold_left]. apply IH. pose proof (step_refines st s o H) as Hs.
+  destruct (a_step st o) as [st' w]. destruct (sp_step s o) as [s' w']. exact (proj2 Hs).
+Qed.
+
+(* a stanza whose write is refused is neither held nor numbered, in any reachable state *)
+Lemma refused_not_held ops k d :
+  a_step (a_exec q_init ops) (ARefused k d) = (a_exec q_init ops, []).
+Proof.
+  pose proof (exec_R ops _ _ init_R) as H. cbn [a_step].
+  rewrite (surjective_pairing (a_refused _ k d)), (refused_id _ _ k d H).
+  destruct k; reflexivity.
+Qed.
 
 (* pushes in any global order (the order in which concurrent senders obtain the queue
    lock): the queue holds the payloads in that order, numbered 1, 2, ... *)
